@@ -286,9 +286,9 @@ SUBS = [
         "saddle_point", check, strategy=_cases, quick=320, thorough=6000, shards=16, shrink_quick=False,
         max_skip_frac=0.2,
         floors={
-            "completed": 0.444, "nt": 0.107, "lp_on": 0.169, "lp_off": 0.242, "ratio<1": 0.079, "early_stop": 0.075,
+            "completed": 0.444, "nt": 0.107, "lp_on": 0.169, "lp_off": 0.19, "ratio<1": 0.079, "early_stop": 0.075,
             "m:DemographicParity": 0.069, "m:TruePositiveRateParity": 0.079, "m:FalsePositiveRateParity": 0.08,
-            "m:EqualizedOdds": 0.053, "m:ErrorRateParity": 0.08, "bound:default": 0.15, "bound:diff": 0.142,
+            "m:EqualizedOdds": 0.053, "m:ErrorRateParity": 0.069, "bound:default": 0.142, "bound:diff": 0.142,
             "groups3": 0.2,
         },
     ),
